@@ -177,7 +177,13 @@ def run(ctx):
     import docgen as D
     for _ in range(n):
         r = rng.random()
-        if r < 0.4:
+        if rng.random() < 0.12:
+            # node vectors only the builder API / the derive produce: ONE unnamed node (union / array / map) referenced from several
+            # places, in particular from outside a recursive record and from inside it (re-entered after a named record started)
+            nodes = D.shared_wrapper_graph(rng)
+            if rng.random() < 0.4:
+                nodes = D.permute(rng, nodes)
+        elif r < 0.4:
             # named types over several namespaces (same simple names), every (parent namespace, child namespace, already written)
             # arrangement, each named type referenced several times through different containers; stored in any order; with or
             # without an additional cycle through containers on which named types are met again every round
